@@ -155,8 +155,8 @@ Definition cx_ (p : list T) : res cad := do r <- param p 0; Ok (cylinder_ zero z
 Definition cy_ (p : list T) : res cad := do r <- param p 0; Ok (cylinder_ zero zero zero r zero one zero).
 Definition cz_ (p : list T) : res cad := do r <- param p 0; Ok (cylinder_ zero zero zero r zero zero one).
 
-(* xx / zz (there is no yy in the table; [axis] = 1 is kept for the statement
-   of what a 'y' entry written like its two sisters would do) *)
+(* xx / yy / zz: the sheet of the cone form is chosen from both points
+   (nappe = 1 if 2 * x0 < p[0] + p[2] else -1) *)
 Definition xyz_ (p : list T) (axis : nat) : res cad :=
   let plane := match axis with 0%nat => px_ | 1%nat => py_ | _ => pz_ end in
   let cyl := match axis with 0%nat => cx_ | 1%nat => cy_ | _ => cz_ end in
@@ -170,7 +170,7 @@ Definition xyz_ (p : list T) (axis : nat) : res cad :=
         if tana == zero then Err EZeroDiv
         else
           let x0 := p0 - p1 / tana in
-          let nappe := if x0 <? p0 then sZ S 1 else sZ S (-1) in
+          let nappe := if s2 S * x0 <? p0 + p2 then sZ S 1 else sZ S (-1) in
           Ok match axis with
              | 0%nat => cone_ x0 zero zero (sabs S tana) one zero zero (Some nappe)
              | 1%nat => cone_ zero x0 zero (sabs S tana) zero one zero (Some nappe)
@@ -230,10 +230,11 @@ Definition mcnp2cad (mn : mnem) (p : list T) : res cad :=
   | M_TY => torus_axis p zero one zero
   | M_TZ => torus_axis p zero zero one
   | M_X => xyz_ p 0
+  | M_Y => xyz_ p 1
   | M_Z => xyz_ p 2
   | M_SQ => Ok (mkCad KdSQ None (map Some p))
   | M_GQ => Ok (mkCad KdGQ None (map Some p))
-  | M_Y | M_T => Err EKey
+  | M_T => Err EKey
   end.
 
 (* ---------- to_surface_mcnp: cone-parameter padding ---------- *)
@@ -269,18 +270,18 @@ Definition compl (c : cad) (i : nat) : res T :=
   | None => Err EIndex
   end.
 
-Definition axis_plane (p u : vec) (strict : bool) : t4surf :=
+Definition axis_plane (p u : vec) : t4surf :=
   let '(p_x, p_y, p_z) := p in
   let '(u_x, u_y, u_z) := u in
   let pos := - (u_x * p_x + u_y * p_y + u_z * p_z) in
-  let gt0 (v : T) := if strict then zero <? v else true in
+  let gt0 (v : T) := zero <? v in
   if (u_x == zero) && (u_y == zero) && gt0 u_z then (PLANEZ, [(- pos) / u_z])
   else if (u_y == zero) && (u_z == zero) && gt0 u_x then (PLANEX, [(- pos) / u_x])
   else if (u_z == zero) && (u_x == zero) && gt0 u_y then (PLANEY, [(- pos) / u_y])
   else (PLANE, [u_x; u_y; u_z; pos]).
 
 Definition convert_plane (c : cad) : res t4surf :=
-  do f <- frame_of c; Ok (axis_plane (fst f) (snd f) true).
+  do f <- frame_of c; Ok (axis_plane (fst f) (snd f)).
 
 Definition convert_cylinder (c : cad) : res t4surf :=
   do f <- frame_of c;
@@ -349,6 +350,22 @@ Definition convert_torus (c : cad) : res t4surf :=
   else if allclose3 au (zero, zero, one) then Ok (TORUSZ, prm)
   else Err EUnmodelled.
 
+(* the auxiliary plane that keeps one sheet of a cone: PLANEX/Y/Z have their
+   normal along the positive axis, so the side is flipped when the axis
+   component is not positive; -pos / u_z raises for u = 0 *)
+Definition cone_aux_plane (p u : vec) (side : Z) : res (t4surf * Z) :=
+  let '(p_x, p_y, p_z) := p in
+  let '(u_x, u_y, u_z) := u in
+  let pos := - (u_x * p_x + u_y * p_y + u_z * p_z) in
+  if (u_x == zero) && (u_y == zero) then
+    if u_z == zero then Err EZeroDiv
+    else Ok ((PLANEZ, [(- pos) / u_z]), if zero <? u_z then side else Z.opp side)
+  else if (u_y == zero) && (u_z == zero) then
+    Ok ((PLANEX, [(- pos) / u_x]), if zero <? u_x then side else Z.opp side)
+  else if (u_z == zero) && (u_x == zero) then
+    Ok ((PLANEY, [(- pos) / u_y]), if zero <? u_y then side else Z.opp side)
+  else Ok ((PLANE, [u_x; u_y; u_z; pos]), side).
+
 (* -int(nappe) for the three values a sheet selector may take *)
 Definition minus_int (n : T) : res Z :=
   if n == one then Ok (-1)%Z else if n == - one then Ok 1%Z else Err EUnmodelled.
@@ -372,7 +389,8 @@ Definition convert_cone (c : cad) : res coll :=
       if n == zero then Ok [(cone, 1%Z)]
       else
         do side <- minus_int n;
-        Ok [(cone, 1%Z); (axis_plane (p_x, p_y, p_z) (u_x, u_y, u_z) false, side)]
+        do aux <- cone_aux_plane (p_x, p_y, p_z) (u_x, u_y, u_z) side;
+        Ok [(cone, 1%Z); aux]
   end.
 
 Definition conversion_surface_params (c : cad) : res coll :=
